@@ -28,6 +28,8 @@ type exec struct {
 	reach    map[*ssa.BasicBlock]string
 	headSt   map[*ssa.BasicBlock]*State // state right after havoc+assume at loop head
 	variant0 map[*ssa.BasicBlock]string
+	loopPre  map[*ssa.BasicBlock]*State // pre-loop state of loops with a modifies clause
+	loopPreRef map[*ssa.BasicBlock]string // allocation counter when the loop was entered
 	curBlock *ssa.BasicBlock
 	cur      string // reach condition of current block
 	retCount int
@@ -63,7 +65,7 @@ func (eng *Engine) verifyFunction(fn *ssa.Function, fc *FuncContract) *VC {
 		}
 	}()
 	ex := &exec{vc: vc, fn: fn, loopOf: map[*ssa.BasicBlock]*loopInfo{}, incoming: map[*ssa.BasicBlock][]edgeIn{},
-		reach: map[*ssa.BasicBlock]string{}, headSt: map[*ssa.BasicBlock]*State{}, variant0: map[*ssa.BasicBlock]string{}}
+		reach: map[*ssa.BasicBlock]string{}, headSt: map[*ssa.BasicBlock]*State{}, variant0: map[*ssa.BasicBlock]string{}, loopPre: map[*ssa.BasicBlock]*State{}, loopPreRef: map[*ssa.BasicBlock]string{}}
 	if len(fn.Blocks) == 0 {
 		vc.outside = "no body"
 		return vc
@@ -112,12 +114,14 @@ func (ex *exec) run() {
 	// preconditions
 	if vc.contract != nil {
 		for i, c := range vc.contract.Requires {
-			t, err := env.formula(c.E)
+			parts, err := env.splitGoal(c.E, clauseName(c, i))
 			if err != nil {
 				ex.bail("requires %d (line %d): %v", i+1, c.Line, err)
 			}
 			vc.comment("requires: " + c.Text)
-			vc.assume("true", t)
+			for _, p := range parts {
+				vc.assume("true", p.t)
+			}
 		}
 		vc.probe("vacuity.requires", "true", "preconditions and type invariants are satisfiable")
 	}
@@ -170,14 +174,14 @@ func (ex *exec) mergeIn(b *ssa.BasicBlock) (*State, string) {
 		if len(r) > 30 {
 			n := vc.fresh(fmt.Sprintf("reach_b%d", b.Index))
 			vc.declared[n] = true
-			vc.lines = append(vc.lines, fmt.Sprintf("(define-fun %s () Bool %s)", n, r))
+			vc.addLine(fmt.Sprintf("(define-fun %s () Bool %s)", n, r))
 			r = n
 		}
 		return ins[0].st.clone(), r
 	}
 	rn := vc.fresh(fmt.Sprintf("reach_b%d", b.Index))
 	vc.declared[rn] = true
-	vc.lines = append(vc.lines, fmt.Sprintf("(define-fun %s () Bool %s)", rn, reach))
+	vc.addLine(fmt.Sprintf("(define-fun %s () Bool %s)", rn, reach))
 	st := &State{locals: map[*ssa.Alloc]string{}, heap: map[string]string{}}
 	// epoch
 	sameEpoch := true
@@ -268,7 +272,7 @@ func (ex *exec) mergeTerm(prefix, sortS string, ins []edgeIn, get func(*State) (
 		if !ok {
 			continue
 		}
-		vc.lines = append(vc.lines, "(assert "+sImp(e.cond, sEq(m, t))+")")
+		vc.addLine("(assert "+sImp(e.cond, sEq(m, t))+")")
 	}
 	return m
 }
@@ -277,11 +281,23 @@ func (ex *exec) mergeTerm(prefix, sortS string, ins []edgeIn, get func(*State) (
 
 func (ex *exec) block(b *ssa.BasicBlock) {
 	vc := ex.vc
+	// ancestors of b over forward edges
+	anc := map[int]bool{b.Index: true}
+	for _, e := range ex.incoming[b] {
+		if e.from != nil {
+			for k := range vc.ancestors[e.from.Index] {
+				anc[k] = true
+			}
+		}
+	}
+	vc.ancestors[b.Index] = anc
+	vc.curBlk = b.Index
 	st, reach := ex.mergeIn(b)
 	if st == nil {
 		return // unreachable
 	}
 	ex.curBlock = b
+	vc.curBlk = b.Index
 	ex.cur = reach
 	ex.reach[b] = reach
 	vc.comment(fmt.Sprintf("---- block %d (%s)", b.Index, b.Comment))
@@ -313,21 +329,37 @@ func (ex *exec) loopHead(li *loopInfo, st *State) {
 	vc := ex.vc
 	spec := ex.loopSpec(li)
 	pos := posStr(vc.eng.fset, li.astNode.Pos())
+	ex.loopPreRef[li.header] = st.nextRef
 	// 1. invariants hold on entry
 	if spec != nil {
 		env := ex.loopEnv(li, st)
 		for i, c := range spec.Invariants {
-			t, err := env.formula(c.E)
+			parts, err := env.splitGoal(c.E, clauseName(c, i))
 			if err != nil {
 				ex.bail("loop %d invariant (line %d): %v", li.ordinal, c.Line, err)
 			}
-			vc.oblige(fmt.Sprintf("loop%d.entry[%s]", li.ordinal, clauseName(c, i)), "loop", ex.cur, t, c.Text, pos)
+			for _, p := range parts {
+				vc.oblige(fmt.Sprintf("loop%d.entry[%s]", li.ordinal, p.name), "loop", ex.cur, p.t, c.Text, pos)
+			}
 		}
 	}
 	// 2. havoc what the loop modifies
 	modLocals, modHeaps, all := ex.loopModifies(li)
 	pre := st.clone()
-	if all {
+	if spec != nil && spec.HasModifies && !all {
+		// precise havoc: only the listed locations (evaluated in the pre-loop state); every other heap map the
+		// loop touches must stay within them, which is checked at each back edge (loopN.frame[...]).
+		nr := vc.freshConst("nextRef", "Int")
+		vc.assume("true", "(>= "+nr+" "+st.nextRef+")")
+		st.nextRef = nr
+		menv := ex.loopEnv(li, pre)
+		for _, a := range spec.Modifies {
+			if err := ex.havocAssign(st, pre, menv, a); err != nil {
+				ex.bail("loop %d modifies %s: %v", li.ordinal, a.Text, err)
+			}
+		}
+		ex.loopPre[li.header] = pre
+	} else if all {
 		vc.havocAllHeap(st)
 	} else {
 		nr := vc.freshConst("nextRef", "Int")
@@ -351,13 +383,15 @@ func (ex *exec) loopHead(li *loopInfo, st *State) {
 	// 3. assume invariants
 	if spec != nil {
 		env := ex.loopEnv(li, st)
-		for _, c := range spec.Invariants {
-			t, err := env.formula(c.E)
+		for i, c := range spec.Invariants {
+			parts, err := env.splitGoal(c.E, clauseName(c, i))
 			if err != nil {
 				ex.bail("loop %d invariant (line %d): %v", li.ordinal, c.Line, err)
 			}
 			vc.comment("assume invariant: " + c.Text)
-			vc.assume(ex.cur, t)
+			for _, p := range parts {
+				vc.assume(ex.cur, p.t)
+			}
 		}
 		if spec.Decreases != nil {
 			v, err := env.term(spec.Decreases.E)
@@ -1029,11 +1063,16 @@ func (ex *exec) edge(st *State, from, to *ssa.BasicBlock, cond string) {
 		if spec != nil {
 			env := ex.loopEnv(li, st)
 			for i, c := range spec.Invariants {
-				t, err := env.formula(c.E)
+				parts, err := env.splitGoal(c.E, clauseName(c, i))
 				if err != nil {
 					ex.bail("loop %d invariant: %v", li.ordinal, err)
 				}
-				vc.oblige(fmt.Sprintf("loop%d.preserved[%s]", li.ordinal, clauseName(c, i)), "loop", cond, t, c.Text, pos)
+				for _, p := range parts {
+					vc.oblige(fmt.Sprintf("loop%d.preserved[%s]", li.ordinal, p.name), "loop", cond, p.t, c.Text, pos)
+				}
+			}
+			if pre := ex.loopPre[li.header]; pre != nil {
+				ex.frameCheckAgainst(st, ex.headSt[li.header], pre, spec.Modifies, cond, fmt.Sprintf("loop%d.frame", li.ordinal), pos, li)
 			}
 			if spec.Decreases != nil {
 				v, err := env.term(spec.Decreases.E)
@@ -1422,11 +1461,13 @@ func (ex *exec) ret(st *State, x *ssa.Return) {
 	env = ex.newEnv(st, vc.entry)
 	env.results = results
 	for i, c := range fc.Ensures {
-		t, err := env.formula(c.E)
+		parts, err := env.splitGoal(c.E, clauseName(c, i))
 		if err != nil {
 			ex.bail("ensures (line %d): %v", c.Line, err)
 		}
-		vc.oblige(fmt.Sprintf("ensures[%s]", clauseName(c, i)), "ensures", ex.cur, t, c.Text, pos)
+		for _, p := range parts {
+			vc.oblige(fmt.Sprintf("ensures[%s]", p.name), "ensures", ex.cur, p.t, c.Text, pos)
+		}
 	}
 	if fc.HasAssigns || fc.Pure {
 		ex.frameCheck(st, fc, pos)
@@ -1468,7 +1509,8 @@ func (ex *exec) applyGhostExits(env *SpecEnv, fc *FuncContract, st *State, cond 
 			if err != nil {
 				ex.bail("ghost exit var: %v", err)
 			}
-			bn := "g_" + v.Name
+			vc.nfresh++
+			bn := fmt.Sprintf("%s!q%d", sanitize(v.Name), vc.nfresh)
 			sub.vars[v.Name] = Val{T: bn, S: vc.sorts.sortOf(ty), Typ: ty}
 			binders = append(binders, "("+bn+" "+vc.sorts.sortOf(ty)+")")
 			selT = "(select " + selT + " " + bn + ")"
@@ -1476,7 +1518,9 @@ func (ex *exec) applyGhostExits(env *SpecEnv, fc *FuncContract, st *State, cond 
 				gt = m.Elem()
 			}
 		}
+		vc.quantDepth++
 		val, err := sub.term(ge.Val)
+		vc.quantDepth--
 		if err != nil {
 			ex.bail("ghost exit value: %v", err)
 		}
@@ -1484,7 +1528,7 @@ func (ex *exec) applyGhostExits(env *SpecEnv, fc *FuncContract, st *State, cond 
 		if len(binders) == 0 {
 			vc.assume(cond, sEq(newArr, val.T))
 		} else {
-			vc.lines = append(vc.lines, "(assert "+sImp(cond, "(forall ("+strings.Join(binders, " ")+") (! (= "+selT+" "+val.T+") :pattern ("+selT+")))")+")")
+			vc.addLine("(assert "+sImp(cond, "(forall ("+strings.Join(binders, " ")+") (! (= "+selT+" "+val.T+") :pattern ("+selT+")))")+")")
 		}
 		upds = append(upds, upd{hi, "(store " + vc.heapGet(st, hi) + " " + base.T + " " + newArr + ")"})
 	}
